@@ -1,0 +1,29 @@
+//go:build verif
+
+package nsqd
+
+import "net"
+
+// VerifSetClientSendBuffer fixes the size of the kernel send buffer (SO_SNDBUF) of the TCP
+// connection the daemon holds with the client at remoteAddr (the client's local address).
+// A fixed size switches the kernel's send-buffer auto-tuning off for that socket: together
+// with a small receive buffer on the client's side, what the connection can hold in flight
+// stays a few KB however much traffic it has carried, so that a consumer that stops reading
+// blocks the daemon's write of any larger frame part-way.  Returns false when the daemon
+// has no such client connection.
+func (n *NSQD) VerifSetClientSendBuffer(remoteAddr string, bytes int) bool {
+	done := false
+	n.tcpServer.conns.Range(func(k, v interface{}) bool {
+		addr, isAddr := k.(net.Addr)
+		if !isAddr || addr.String() != remoteAddr {
+			return true
+		}
+		if c, isV2 := v.(*clientV2); isV2 {
+			if tc, isTCP := c.Conn.(*net.TCPConn); isTCP {
+				done = tc.SetWriteBuffer(bytes) == nil
+			}
+		}
+		return false
+	})
+	return done
+}
